@@ -9,7 +9,57 @@ TRUST = ("TLC 1.8.0 + CommunityModules; CPython 3.12; the fake socket module / s
          "virtual clock of /verif/lib stand for the network, servers and time; bounds as stated in the evidence file")
 
 # id -> dict(category, text, technique, design_ref, note)
+CONN_NOTE = TRUST + " One fault per call; the server honours noreply and sends no unsolicited bytes; sequential use of one client object."
+
 CHECKS = {
+    "C01": dict(
+        category="model_checking",
+        text="Every public data operation x noreply variants x every single-fault plan (each socket call of the operation x "
+             "{timeout, reset, EOF, refused, partial send, EINTR...}; each command's reply x {ERROR, CLIENT_ERROR, SERVER_ERROR, garbage, "
+             "truncation at a byte then EOF or silence}) x reply segmentations, on Client / PooledClient / HashClient (plain and pooled), "
+             "fresh and warm connections, followed by further healthy calls, is executed against the fake socket module whose reply "
+             "bytes are tagged with the call they answer; every execution is validated by TLC against the TLA+ contract monitor "
+             "spec/ConnRule.tla (reads only own replies, nothing left unread or half-sent on a connection that stays open, no read "
+             "after noreply, never blocks on a reply that will not come).",
+        technique="TLA+ contract monitor (ConnRule.tla) evaluated by TLC over recorded executions (trace validation); exhaustive single-fault enumeration",
+        design_ref="4 C01", note=CONN_NOTE),
+    "C06": dict(
+        category="model_checking",
+        text="Configuration grid (TCP with 1..3 resolved addresses, UNIX, TLS, no_delay, keepalive, five timeout pairs incl. None) x "
+             "every single-fault plan over {getaddrinfo, socket, setsockopt, wrap_socket, settimeout, connect, sendall, recv, close} "
+             "plus creation failures for the first k resolved addresses, fresh and after a failure, followed by healthy calls, on four "
+             "client stacks; TLC validates every recorded execution against ConnRule.tla: at most one open socket per server, failed or "
+             "half-built sockets closed within the call and never reused, connect under connect_timeout and I/O under timeout, I/O only "
+             "through the TLS wrapper, a later resolved address is used when an earlier one cannot get a socket, the next call after a "
+             "failure works, everything closed after close().",
+        technique="TLA+ contract monitor evaluated by TLC over recorded executions; exhaustive single-fault enumeration over a configuration grid",
+        design_ref="4 C06", note=CONN_NOTE),
+    "C07": dict(
+        category="model_checking",
+        text="All read operations (get, gets, get_many, gets_many, gat, gats) with ignore_exc on Client, PooledClient, HashClient and pooled "
+             "HashClient x every single-fault plan of C01, server down, failing deserialiser, with non-None defaults by keyword; follow-up reads "
+             "both inside and after HashClient's retry window; each result is classified against the result of the same call on an empty healthy "
+             "server and TLC checks the C07 clauses of ConnRule.tla (never raises an ordinary exception; a failed read or a read that reached no "
+             "server returns exactly the miss result; the client stays usable).",
+        technique="TLA+ contract monitor evaluated by TLC over recorded executions; exhaustive single-fault enumeration",
+        design_ref="4 C07", note=CONN_NOTE),
+    "C09": dict(
+        category="model_checking",
+        text="Every sequence (length 2 quick / 3 thorough) of PooledClient operations x per-operation fault choice x idle gaps below/at/above "
+             "pool_idle_timeout x max_pool_size {1,2,unbounded} x ignore_exc, on PooledClient and pooled HashClient under a virtual clock; TLC "
+             "validates every execution against the C09 clauses of ConnRule.tla: a socket that saw a failure is closed within the call and never "
+             "used again, a healthy connection is reused and not discarded, an idle-expired one is closed and never reused, the number of "
+             "checked-out connections is zero at every call boundary.",
+        technique="TLA+ contract monitor evaluated by TLC over recorded executions; bounded-exhaustive operation/fault/gap sequences",
+        design_ref="4 C09", note=CONN_NOTE + " Overlapping calls (two connections in the pool at once) are C08's subject."),
+    "C10": dict(
+        category="model_checking",
+        text="Every socket call of every public operation as interruption point x {KeyboardInterrupt, SystemExit, a BaseException subclass "
+             "standing for gevent.Timeout}, pool sizes 1 and 2, on four client stacks, followed by further calls; an interrupt in sendall "
+             "surfaces after the bytes are out. TLC validates every execution against the reply-ownership / in-sync clauses of ConnRule.tla and "
+             "the pool-slot clause (checked-out count back to zero at every call boundary).",
+        technique="TLA+ contract monitor evaluated by TLC over recorded executions; exhaustive interruption-point enumeration",
+        design_ref="4 C10", note=CONN_NOTE + " Interrupts are raised inside socket-module calls only."),
     "C17": dict(
         category="model_checking",
         text="TLC explores the as-coded model of RetryingClient.__init__/_retry (spec/Retrying.tla) against the contract "
